@@ -39,6 +39,17 @@ func init() {
 }
 
 func genC09(r *rand.Rand, run int, tier string) *Scenario {
+	if run%5 == 4 {
+		// (d) InvalidationIndex.AddLabels must not keep the caller's key slice: every labelled key
+		// buffer is overwritten right after the call; the label associations must still work
+		sc := genC15(r, 0, tier)
+		for i := range sc.TR.Index.Setup {
+			sc.TR.Index.Setup[i].Mutate = true
+		}
+
+		return sc
+	}
+
 	switch run % 4 {
 	case 0, 1:
 		// (a) sequences over colliding keys on the three backends, key buffers rewritten after the call
